@@ -26,7 +26,7 @@ ASSUMPTIONS = [
     "working-directory changes happen inside single-threaded worker processes",
 ]
 TIERS = {
-    "quick": {"examples": 600, "budget_s": 110},
+    "quick": {"examples": 1600, "budget_s": 110},
     "thorough": {"examples": 15000, "budget_s": 1800},
 }
 PARTS = ["search"]
